@@ -133,10 +133,16 @@ impl Fq {
     ///
     /// Note: Arkworks provides another method for this, called `pow`.
     pub fn power<S: AsRef<[u64]>>(&self, exp: S) -> Self {
+        // Square-and-multiply over the whole little-endian multi-limb exponent.
         let mut res = Fq::from(1u64);
-        let exp_u64 = exp.as_ref();
-        for _ in 0..exp_u64[0] {
-            res *= self;
+        let mut base = *self;
+        for limb in exp.as_ref() {
+            for i in 0..64 {
+                if (limb >> i) & 1 == 1 {
+                    res *= base;
+                }
+                base *= base;
+            }
         }
         res
     }
